@@ -2,6 +2,7 @@ package main
 
 import (
 	"go/token"
+	"sort"
 	"strings"
 
 	"golang.org/x/tools/go/ssa"
@@ -230,6 +231,7 @@ func runC33(c *Ctx) []Obligation {
 		c.sameOperand(P, "candidates.cache-read-and-fill-same-key", "(x/nodes/keeper.Keeper).GetValidatorsByChain", `^types\.GetCacheKey\(`, 0, `^types\.GetCacheKey\(`, 0, "the list is cached under the height it was read at"),
 		c.sameOperand(P, "candidates.cache-read-and-fill-same-chain", "(x/nodes/keeper.Keeper).GetValidatorsByChain", `^types\.GetCacheKey\(`, 1, `^types\.GetCacheKey\(`, 1, "and under the chain it was read for"),
 	)
+	out = append(out, c.sessionContextRoles(P)...)
 	return out
 }
 
@@ -558,4 +560,57 @@ func (c *Ctx) noElementAccess(P, rule, fnName, sliceRe, why string) Obligation {
 		o.unresolved("%s does not mention a slice rendering as %s any more", fnName, sliceRe)
 	}
 	return *o
+}
+
+// sessionContextRoles (C33, C13): a session is computed from two states with distinct roles — the
+// session-start state (candidates per chain, parameters) and a later reference state (the current record
+// of each drawn node, the height-gated rules). Each read uses the context of its role, the two are never
+// the same context, and they are handed down unswapped.
+func (c *Ctx) sessionContextRoles(P string) []Obligation {
+	var out []Obligation
+	out = append(out, c.Rows([]Row{
+		{Prop: P, ID: "roles.newsession-hands-both-down", Fn: "x/pocketcore/types.NewSession",
+			Target: CallTo(`^x/pocketcore/types\.NewSessionNodes\(`).Except(`^x/pocketcore/types\.NewSessionNodes\(sessionCtx, ctx, keeper, sessionHeader\.Chain, x/pocketcore/types\.NewSessionKey\(sessionHeader\.ApplicationPubKey, sessionHeader\.Chain, blockHash\)#0, sessionNodesCount\)$`),
+			Why:    "node selection gets the session-start context first and the reference context second, with the key derived from this header and block hash"},
+		{Prop: P, ID: "roles.keeper-reads", Fn: fnSessNodes,
+			Target: CallTo(`^invoke x/pocketcore/types\.PosKeeper\.`).Except(`^invoke x/pocketcore/types\.PosKeeper\.(MaxChains\(keeper, sessionCtx\)|GetValidatorsByChain\(keeper, sessionCtx, chain\)|Validator\(keeper, ctx, .*\))$`),
+			Why:    "candidates and the chain limit come from the session-start state; each drawn node's record comes from the reference state"},
+		{Prop: P, ID: "roles.height-gate-at-reference-height", Fn: fnSessNodes,
+			Target: CallTo(`IsAfter\w+\(|IsOn\w+\(`).Except(`^\(\*codec\.Codec\)\.IsAfterEnforceMaxChainsUpgrade\(x/pocketcore/types\.ModuleCdc, invoke types\.Ctx\.BlockHeight\(ctx\)\)$`),
+			Why:    "whether the chain limit is in force is decided at the reference height (as the sibling checks in relay validation and claim validation do), not at the session's first block"},
+	})...)
+	// every call site: two different contexts, the first one a historical context
+	n := 0
+	var fns []*ssa.Function
+	for fn := range c.A.AllFns {
+		if fn.Blocks != nil {
+			fns = append(fns, fn)
+		}
+	}
+	sort.Slice(fns, func(i, j int) bool { return FnName(fns[i]) < FnName(fns[j]) })
+	for _, fn := range fns {
+		for _, st := range c.callSites(fn, `^x/pocketcore/types\.NewSession\(`) {
+			if len(st.Call.Args) < 2 {
+				continue
+			}
+			n++
+			o := c.obl(P, "roles.call-site-two-states", FnName(fn), "in "+FnName(fn)+" the session is built from a historical session-start context and a different reference context")
+			o.Pos = c.A.Pos(st.Ins.Pos())
+			o.Facts = 2
+			a0, a1 := desc(st.Call.Args[0], maxDepth), desc(st.Call.Args[1], maxDepth)
+			if a0 == a1 {
+				o.fail(o.Pos, "both contexts are %s: the node records are then read from the session-start state, so a node jailed, edited or unstaked since is still selected (and the result is cached for claim validation)", a0)
+			}
+			if !strings.Contains(a0, "PrevCtx(") {
+				o.fail(o.Pos, "the session-start context %s is not a historical context obtained from PrevCtx", a0)
+			}
+			out = append(out, *o)
+		}
+	}
+	if n < 4 {
+		o := c.obl(P, "roles.call-site-two-states", "x/pocketcore/types.NewSession", "call sites of NewSession")
+		o.unresolved("%d call sites of NewSession found, 4 confirmed by reading", n)
+		out = append(out, *o)
+	}
+	return out
 }
